@@ -5,14 +5,14 @@ Import ListNotations.
 Require Import Aurora.C31.Model Aurora.C31.Heap.
 Local Open Scope N_scope.
 
-Lemma alloc_ok h v l h' : alloc H h v = (l, h') -> ok h' l v /\ hext h h'.
+Lemma alloc_ok h v l h' : alloc HM h v = (l, h') -> ok h' l v /\ hext h h'.
 Proof. intros E. apply alloc_spec in E. tauto. Qed.
 
 Ltac alloc_step :=
   match goal with
-  | |- context [alloc H ?h ?v] =>
+  | |- context [alloc HM ?h ?v] =>
       let l := fresh "l" in let h' := fresh "h" in let E := fresh "E" in
-      destruct (alloc H h v) as [l h'] eqn:E; apply alloc_ok in E; destruct E as [? ?]
+      destruct (alloc HM h v) as [l h'] eqn:E; apply alloc_ok in E; destruct E as [? ?]
   end.
 Ltac solve_hext := eauto 8 using hext_refl, hext_trans.
 Ltac solve_ok :=
@@ -26,7 +26,7 @@ Ltac mk_trel :=
   repeat (split; [solve_ok|]); try assumption; try reflexivity.
 
 Lemma new_traffic_sim h :
-  let r := new_traffic H h in hext h (snd r) /\ trel (snd r) (fst r) (fst (new_traffic V tt)).
+  let r := new_traffic HM h in hext h (snd r) /\ trel (snd r) (fst r) (fst (new_traffic VM tt)).
 Proof.
   unfold new_traffic at 1 2. repeat alloc_step. cbn [fst snd]. split; [solve_hext|].
   cbn. mk_trel.
@@ -35,7 +35,7 @@ Qed.
 Ltac split5 := split; [|split; [|split; [|split]]].
 
 Lemma get_traffic_sim s v a : sim s v ->
-  let r := get_traffic H s a in let rv := get_traffic V v a in
+  let r := get_traffic HM s a in let rv := get_traffic VM v a in
   sim (snd r) (snd rv) /\ hext (hp s) (hp (snd r)) /\ trel (hp (snd r)) (fst r) (fst rv) /\
   get a (recs (snd r)) = Some (fst r) /\ get a (recs (snd rv)) = Some (fst rv).
 Proof.
@@ -43,8 +43,8 @@ Proof.
   destruct (get a (recs s)) as [t|] eqn:Gs, (get a (recs v)) as [tv|] eqn:Gv; try contradiction; cbn [fst snd].
   - split5; auto using hext_refl. split5; auto.
   - pose proof (new_traffic_sim (hp s)) as N. cbn zeta in N.
-    destruct (new_traffic H (hp s)) as [t h1]. destruct (new_traffic V (hp v)) as [tv hv] eqn:Nv.
-    assert (Nv' : new_traffic V tt = (tv, hv)) by (destruct (hp v); exact Nv).
+    destruct (new_traffic HM (hp s)) as [t h1]. destruct (new_traffic VM (hp v)) as [tv hv] eqn:Nv.
+    assert (Nv' : new_traffic VM tt = (tv, hv)) by (destruct (hp v); exact Nv).
     rewrite Nv' in N. cbn [fst snd] in *. destruct N as [X T].
     cbn [hp recs bal m_pb m_bp dk]. rewrite !get_set_same.
     split5; auto. split5; cbn [hp recs bal m_pb m_bp dk]; auto.
@@ -57,12 +57,12 @@ Ltac get_traffic_step s v a Hsim :=
   let G := fresh "G" in
   pose proof (get_traffic_sim s v a Hsim) as G; cbn zeta in G;
   let t := fresh "t" in let s1 := fresh "s" in let tv := fresh "tv" in let v1 := fresh "v" in
-  destruct (get_traffic H s a) as [t s1]; destruct (get_traffic V v a) as [tv v1]; cbn [fst snd] in G;
+  destruct (get_traffic HM s a) as [t s1]; destruct (get_traffic VM v a) as [tv v1]; cbn [fst snd] in G;
   let S1 := fresh "S" in let X := fresh "X" in let T := fresh "T" in let G1 := fresh "Gh" in let G2 := fresh "Gv" in
   destruct G as (S1 & X & T & G1 & G2).
 
 Lemma chain_update_sim s v a tr : sim s v ->
-  sim (chain_update H s a tr) (chain_update V v a tr) /\ hext (hp s) (hp (chain_update H s a tr)).
+  sim (chain_update HM s a tr) (chain_update VM v a tr) /\ hext (hp s) (hp (chain_update HM s a tr)).
 Proof.
   intros Hsim. unfold chain_update. get_traffic_step s v a Hsim.
   destruct S as (R & B & E1 & E2 & E3). rewrite <- E3.
@@ -73,7 +73,7 @@ Proof.
 Qed.
 
 Lemma cheque_update_sim s v a : sim s v ->
-  sim (cheque_update H s a) (cheque_update V v a) /\ hext (hp s) (hp (cheque_update H s a)).
+  sim (cheque_update HM s a) (cheque_update VM v a) /\ hext (hp s) (hp (cheque_update HM s a)).
 Proof.
   intros Hsim. unfold cheque_update. get_traffic_step s v a Hsim.
   destruct S as (R & B & E1 & E2 & E3). rewrite <- E3.
@@ -92,7 +92,7 @@ Ltac close_sim :=
 
 Lemma init_fold_sim cv l : forall s v, sim s v ->
   let f M := fun (s : state M) a => cheque_update M (chain_update M s a (trans_of cv a)) a in
-  sim (fold_left (f H) l s) (fold_left (f V) l v) /\ hext (hp s) (hp (fold_left (f H) l s)).
+  sim (fold_left (f HM) l s) (fold_left (f VM) l v) /\ hext (hp s) (hp (fold_left (f HM) l s)).
 Proof.
   induction l as [|a l IH]; intros s v Hsim; cbn [fold_left].
   - split; auto using hext_refl.
@@ -102,8 +102,8 @@ Proof.
 Qed.
 
 Lemma traffic_init_sim s v cv : sim s v ->
-  fst (traffic_init H s cv) = fst (traffic_init V v cv) /\
-  sim (snd (traffic_init H s cv)) (snd (traffic_init V v cv)) /\ hext (hp s) (hp (snd (traffic_init H s cv))).
+  fst (traffic_init HM s cv) = fst (traffic_init VM v cv) /\
+  sim (snd (traffic_init HM s cv)) (snd (traffic_init VM v cv)) /\ hext (hp s) (hp (snd (traffic_init HM s cv))).
 Proof.
   intros Hsim. unfold traffic_init. destruct (cv_lists cv) as [l|]; [|cbn; auto using hext_refl].
   assert (Ed : dk s = dk v) by apply Hsim. rewrite <- Ed.
@@ -117,24 +117,24 @@ Proof.
   destruct (cv_paid cv); cbn [fst snd hp]; (split; [reflexivity|split; [exact S2|solve_hext]]).
 Qed.
 
-Lemma init_book_sim s v : sim s v -> sim (init_book H s) (init_book V v).
+Lemma init_book_sim s v : sim s v -> sim (init_book HM s) (init_book VM v).
 Proof.
   intros (R & B & E1 & E2 & E3). unfold init_book, sim; cbn [hp recs bal m_pb m_bp dk]. rewrite E1, E2, E3. split5; auto.
 Qed.
 
 Lemma svc_init_sim s v cv : sim s v ->
-  fst (svc_init H s cv) = fst (svc_init V v cv) /\
-  sim (snd (svc_init H s cv)) (snd (svc_init V v cv)) /\ hext (hp s) (hp (snd (svc_init H s cv))).
+  fst (svc_init HM s cv) = fst (svc_init VM v cv) /\
+  sim (snd (svc_init HM s cv)) (snd (svc_init VM v cv)) /\ hext (hp s) (hp (snd (svc_init HM s cv))).
 Proof.
   intros Hsim. unfold svc_init. destruct (traffic_init_sim s v cv Hsim) as (Ee & S1 & X1).
-  destruct (traffic_init H s cv) as [e s1]. destruct (traffic_init V v cv) as [e' v1]. cbn [fst snd] in *. subst e'.
+  destruct (traffic_init HM s cv) as [e s1]. destruct (traffic_init VM v cv) as [e' v1]. cbn [fst snd] in *. subst e'.
   destruct e; cbn [fst snd]; auto. split; [reflexivity|]. split; [apply init_book_sim; auto|exact X1].
 Qed.
 
 Lemma update_peer_balance_sim s v a b : sim s v ->
-  fst (update_peer_balance H s a b) = fst (update_peer_balance V v a b) /\
-  sim (snd (update_peer_balance H s a b)) (snd (update_peer_balance V v a b)) /\
-  hext (hp s) (hp (snd (update_peer_balance H s a b))).
+  fst (update_peer_balance HM s a b) = fst (update_peer_balance VM v a b) /\
+  sim (snd (update_peer_balance HM s a b)) (snd (update_peer_balance VM v a b)) /\
+  hext (hp s) (hp (snd (update_peer_balance HM s a b))).
 Proof.
   intros Hsim. unfold update_peer_balance. destruct b as [b|]; [|cbn; auto using hext_refl].
   get_traffic_step s v a Hsim. destruct S as (R & B & E1 & E2 & E3).
@@ -142,23 +142,23 @@ Proof.
 Qed.
 
 Lemma handshake_sim s v p a b : sim s v ->
-  fst (handshake H s p a b) = fst (handshake V v p a b) /\
-  sim (snd (handshake H s p a b)) (snd (handshake V v p a b)) /\ hext (hp s) (hp (snd (handshake H s p a b))).
+  fst (handshake HM s p a b) = fst (handshake VM v p a b) /\
+  sim (snd (handshake HM s p a b)) (snd (handshake VM v p a b)) /\ hext (hp s) (hp (snd (handshake HM s p a b))).
 Proof.
   intros Hsim. unfold handshake. destruct Hsim as (R & B & E1 & E2 & E3). rewrite <- E1, <- E2, <- E3.
   destruct (get p (m_pb s)) as [a'|].
   - apply update_peer_balance_sim. unfold sim; auto.
   - destruct (get a (m_bp s)); [cbn; split; [reflexivity|split; [unfold sim; auto|apply hext_refl]]|].
-    match goal with |- context [update_peer_balance H ?s1 a b] =>
-      match goal with |- context [update_peer_balance V ?v1 a b] =>
+    match goal with |- context [update_peer_balance HM ?s1 a b] =>
+      match goal with |- context [update_peer_balance VM ?v1 a b] =>
         assert (S1 : sim s1 v1) by (unfold sim; cbn [hp recs bal m_pb m_bp dk]; split5; auto);
         exact (update_peer_balance_sim s1 v1 a b S1)
       end end.
 Qed.
 
 Lemma put_retrieve_sim s v p am : sim s v ->
-  fst (put_retrieve H s p am) = fst (put_retrieve V v p am) /\
-  sim (snd (put_retrieve H s p am)) (snd (put_retrieve V v p am)) /\ hext (hp s) (hp (snd (put_retrieve H s p am))).
+  fst (put_retrieve HM s p am) = fst (put_retrieve VM v p am) /\
+  sim (snd (put_retrieve HM s p am)) (snd (put_retrieve VM v p am)) /\ hext (hp s) (hp (snd (put_retrieve HM s p am))).
 Proof.
   intros Hsim. unfold put_retrieve. assert (E1 : m_pb s = m_pb v) by apply Hsim. rewrite <- E1.
   destruct (get p (m_pb s)) as [a|]; [|cbn; auto using hext_refl].
@@ -168,8 +168,8 @@ Proof.
 Qed.
 
 Lemma put_transfer_sim s v p am : sim s v ->
-  fst (put_transfer H s p am) = fst (put_transfer V v p am) /\
-  sim (snd (put_transfer H s p am)) (snd (put_transfer V v p am)) /\ hext (hp s) (hp (snd (put_transfer H s p am))).
+  fst (put_transfer HM s p am) = fst (put_transfer VM v p am) /\
+  sim (snd (put_transfer HM s p am)) (snd (put_transfer VM v p am)) /\ hext (hp s) (hp (snd (put_transfer HM s p am))).
 Proof.
   intros Hsim. unfold put_transfer. assert (E1 : m_pb s = m_pb v) by apply Hsim. rewrite <- E1.
   destruct (get p (m_pb s)) as [a|]; [|cbn; auto using hext_refl].
@@ -179,12 +179,12 @@ Proof.
 Qed.
 
 Lemma issue_sim s v a t tv balance sg dl : sim s v -> trel (hp s) t tv ->
-  fst (issue H false s a t balance sg dl) = fst (issue V false v a tv balance sg dl) /\
-  sim (snd (issue H false s a t balance sg dl)) (snd (issue V false v a tv balance sg dl)) /\
-  hext (hp s) (hp (snd (issue H false s a t balance sg dl))).
+  fst (issue HM false s a t balance sg dl) = fst (issue VM false v a tv balance sg dl) /\
+  sim (snd (issue HM false s a t balance sg dl)) (snd (issue VM false v a tv balance sg dl)) /\
+  hext (hp s) (hp (snd (issue HM false s a t balance sg dl))).
 Proof.
   intros Hsim T. unfold issue. rewrite (available_sim _ _ Hsim).
-  destruct (available_balance V v <? balance)%Z; [cbn; auto using hext_refl|].
+  destruct (available_balance VM v <? balance)%Z; [cbn; auto using hext_refl|].
   destruct Hsim as (R & B & E1 & E2 & E3). split_trel T. rw_reads.
   alloc_step. cbn [alloc value_mem with_hp hp recs bal m_pb m_bp dk]. rw_reads.
   assert (S1 : sim {| hp := h; recs := recs s; bal := bal s; m_pb := m_pb s; m_bp := m_bp s; dk := dk s |}
@@ -196,9 +196,9 @@ Proof.
 Qed.
 
 Lemma pay_sim s v p th sg dl : sim s v ->
-  fst (pay H false s p th sg dl) = fst (pay V false v p th sg dl) /\
-  sim (snd (pay H false s p th sg dl)) (snd (pay V false v p th sg dl)) /\
-  hext (hp s) (hp (snd (pay H false s p th sg dl))).
+  fst (pay HM false s p th sg dl) = fst (pay VM false v p th sg dl) /\
+  sim (snd (pay HM false s p th sg dl)) (snd (pay VM false v p th sg dl)) /\
+  hext (hp s) (hp (snd (pay HM false s p th sg dl))).
 Proof.
   intros Hsim. unfold pay. assert (E1 : m_pb s = m_pb v) by apply Hsim. rewrite <- E1.
   destruct (get p (m_pb s)) as [a|]; [|cbn; auto using hext_refl].
@@ -210,7 +210,7 @@ Proof.
 Qed.
 
 Lemma set_status_sim s v a st : sim s v ->
-  sim (set_status H s a st) (set_status V v a st) /\ hp (set_status H s a st) = hp s.
+  sim (set_status HM s a st) (set_status VM v a st) /\ hp (set_status HM s a st) = hp s.
 Proof.
   intros (R & B & E1 & E2 & E3). unfold set_status. pose proof (rrel_get _ _ _ a R) as G.
   destruct (get a (recs s)) as [t|], (get a (recs v)) as [tv|]; try contradiction.
@@ -220,79 +220,79 @@ Proof.
 Qed.
 
 Lemma cashout_sim s v p ck rc bs tr bp : sim s v ->
-  fst (cashout H s p ck rc bs tr bp) = fst (cashout V v p ck rc bs tr bp) /\
-  sim (snd (cashout H s p ck rc bs tr bp)) (snd (cashout V v p ck rc bs tr bp)) /\
-  hext (hp s) (hp (snd (cashout H s p ck rc bs tr bp))).
+  fst (cashout HM s p ck rc bs tr bp) = fst (cashout VM v p ck rc bs tr bp) /\
+  sim (snd (cashout HM s p ck rc bs tr bp)) (snd (cashout VM v p ck rc bs tr bp)) /\
+  hext (hp s) (hp (snd (cashout HM s p ck rc bs tr bp))).
 Proof.
   intros Hsim. unfold cashout. assert (E1 : m_pb s = m_pb v) by apply Hsim. rewrite <- E1.
   destruct (get p (m_pb s)) as [a|]; [|cbn; auto using hext_refl].
   get_traffic_step s v a Hsim.
   destruct ck; cbn [negb]; [|cbn [fst snd]; auto].
   destruct (set_status_sim s0 v0 a 1 S) as [S1 H1]. destruct (set_status_sim _ _ a 0 S1) as [S2 H2].
-  remember (set_status H (set_status H s0 a 1) a 0) as s2 eqn:Es2.
-  remember (set_status V (set_status V v0 a 1) a 0) as v2 eqn:Ev2.
+  remember (set_status HM (set_status HM s0 a 1) a 0) as s2 eqn:Es2.
+  remember (set_status VM (set_status VM v0 a 1) a 0) as v2 eqn:Ev2.
   assert (X2 : hext (hp s) (hp s2)) by (rewrite H2, H1; exact X). clear Es2 Ev2 S1 H1 H2.
   assert (Hdef : fst (ENone, s2) = fst (ENone, v2) /\ sim (snd (ENone, s2)) (snd (ENone, v2)) /\ hext (hp s) (hp (snd (ENone, s2))))
     by (cbn [fst snd]; auto).
   destruct rc as [[|[q|q|]]|]; try exact Hdef. clear Hdef.
   get_traffic_step s2 v2 a S2. pose proof T0 as T'. split_trel T'. rw_reads.
   unfold with_dk. assert (E3 : dk s1 = dk v1) by apply S0. rewrite <- E3.
-  match goal with |- context [match bs with Some _ => _ | None => (ENone, ?sa) end] =>
-    match goal with |- context [match bs with Some _ => _ | None => (@ENone, ?va) end] => idtac end end || idtac.
   destruct S0 as (R & B & E1' & E2' & _).
   destruct bs as [b|].
   2:{ cbn [fst snd hp]. split; [reflexivity|]. split; [|solve_hext]. unfold sim; cbn [hp recs bal m_pb m_bp dk]. split5; auto. }
   alloc_step. cbn [alloc value_mem hp recs bal m_pb m_bp dk].
-  match goal with |- context [chain_update H ?sa a tr] =>
-    match goal with |- context [chain_update V ?va a tr] =>
-      assert (Sa : sim sa va) by (unfold sim; cbn [hp recs bal m_pb m_bp dk]; split5; auto; eapply rrel_ext; eauto);
-      destruct (chain_update_sim sa va a tr Sa) as [Sb Xb]; cbn [hp] in Xb;
-      destruct (update_peer_balance_sim _ _ a bp Sb) as (_ & Sc & Xc)
-    end end.
+  match goal with |- context [chain_update HM ?sa a tr] =>
+    match goal with |- context [chain_update VM ?va a tr] => remember sa as sa0 eqn:Esa; remember va as va0 eqn:Eva end end.
+  assert (Sa : sim sa0 va0).
+  { subst sa0 va0. unfold sim; cbn [hp recs bal m_pb m_bp dk]. split5; auto. eapply rrel_ext; eauto. }
+  assert (Xa : hext (hp s1) (hp sa0)) by (subst sa0; cbn [hp]; auto).
+  clear Esa Eva.
+  destruct (chain_update_sim sa0 va0 a tr Sa) as [Sb Xb].
+  destruct (update_peer_balance_sim _ _ a bp Sb) as (_ & Sc & Xc).
   cbn [fst snd]. split; [reflexivity|]. split; [exact Sc|solve_hext].
 Qed.
 
 (** one step (any operation but a restart): same output, related states, nothing allocated changes *)
 Definition is_restart (o : op) : bool := match o with ORestart _ => true | _ => false end.
 
-Lemma boot_sim d : sim (boot H d) (boot V d).
+Lemma boot_sim d : sim (boot HM d) (boot VM d).
 Proof.
   unfold boot. alloc_step. cbn [alloc value_mem]. unfold sim; cbn [hp recs bal m_pb m_bp dk].
   split5; auto. constructor.
 Qed.
 
 Lemma step_sim s v o : sim s v ->
-  fst (step H false s o) = fst (step V false v o) /\
-  sim (snd (step H false s o)) (snd (step V false v o)) /\
-  (is_restart o = false -> hext (hp s) (hp (snd (step H false s o)))).
+  fst (step HM false s o) = fst (step VM false v o) /\
+  sim (snd (step HM false s o)) (snd (step VM false v o)) /\
+  (is_restart o = false -> hext (hp s) (hp (snd (step HM false s o)))).
 Proof.
   intros Hsim. destruct o as [p a b|p am|p am|p th sg dl|cv|cv|p ck rc bs tr bp]; cbn [step is_restart].
   - destruct (handshake_sim s v p a b Hsim) as (A & B & C).
-    destruct (handshake H s p a b), (handshake V v p a b). cbn [fst snd] in *. subst. auto.
+    destruct (handshake HM s p a b), (handshake VM v p a b). cbn [fst snd] in *. subst. auto.
   - destruct (put_retrieve_sim s v p am Hsim) as (A & B & C).
-    destruct (put_retrieve H s p am), (put_retrieve V v p am). cbn [fst snd] in *. subst. auto.
+    destruct (put_retrieve HM s p am), (put_retrieve VM v p am). cbn [fst snd] in *. subst. auto.
   - destruct (put_transfer_sim s v p am Hsim) as (A & B & C).
-    destruct (put_transfer H s p am), (put_transfer V v p am). cbn [fst snd] in *. subst. auto.
+    destruct (put_transfer HM s p am), (put_transfer VM v p am). cbn [fst snd] in *. subst. auto.
   - destruct (pay_sim s v p th sg dl Hsim) as (A & B & C). auto.
   - destruct (svc_init_sim s v cv Hsim) as (A & B & C).
-    destruct (svc_init H s cv), (svc_init V v cv). cbn [fst snd] in *. subst. auto.
+    destruct (svc_init HM s cv), (svc_init VM v cv). cbn [fst snd] in *. subst. auto.
   - assert (Ed : dk s = dk v) by apply Hsim. rewrite <- Ed.
     destruct (svc_init_sim _ _ cv (boot_sim (dk s))) as (A & B & C).
-    destruct (svc_init H (boot H (dk s)) cv), (svc_init V (boot V (dk s)) cv). cbn [fst snd] in *. subst.
+    destruct (svc_init HM (boot HM (dk s)) cv), (svc_init VM (boot VM (dk s)) cv). cbn [fst snd] in *. subst.
     split; [reflexivity|]. split; [auto|discriminate].
   - destruct (cashout_sim s v p ck rc bs tr bp Hsim) as (A & B & C).
-    destruct (cashout H s p ck rc bs tr bp), (cashout V v p ck rc bs tr bp). cbn [fst snd] in *. subst. auto.
+    destruct (cashout HM s p ck rc bs tr bp), (cashout VM v p ck rc bs tr bp). cbn [fst snd] in *. subst. auto.
 Qed.
 
 Lemma run_sim : forall h s v, sim s v ->
-  fst (run H false s h) = fst (run V false v h) /\ sim (snd (run H false s h)) (snd (run V false v h)).
+  fst (run HM false s h) = fst (run VM false v h) /\ sim (snd (run HM false s h)) (snd (run VM false v h)).
 Proof.
   induction h as [|o t IH]; intros s v Hsim; cbn [run]; [auto|].
   destruct (step_sim s v o Hsim) as (A & B & _).
-  destruct (step H false s o) as [r s1], (step V false v o) as [r' v1]. cbn [fst snd] in *. subst r'.
+  destruct (step HM false s o) as [r s1], (step VM false v o) as [r' v1]. cbn [fst snd] in *. subst r'.
   destruct (IH _ _ B) as [C D].
-  destruct (run H false s1 t) as [rs s2], (run V false v1 t) as [rs' v2]. cbn [fst snd] in *. subst. auto.
+  destruct (run HM false s1 t) as [rs s2], (run VM false v1 t) as [rs' v2]. cbn [fst snd] in *. subst. auto.
 Qed.
 
-Lemma init_sim : sim (init_state H) (init_state V).
+Lemma init_sim : sim (init_state HM) (init_state VM).
 Proof. apply boot_sim. Qed.
